@@ -153,15 +153,32 @@ theorem mem_rewardKeyHash (h b : Bytes) :
       simp only [List.not_mem_nil, false_iff]
       rintro ⟨hd, he, h14⟩; injection he with h1 _; subst h1; exact hx h14
 
-/-- the certificate kinds whose key credential `_certificate_vkey_hashes` collects -/
-def CertKind.handled (k : CertKind) : Bool :=
-  k.isStakeKind || k == .regDRep || k == .poolReg || k == .poolRetire
-
+/-- `certVkeys` collects the key credential of every certificate kind — the pool operator / retiring pool hash
+unconditionally (always key hashes) — and the owners of a pool registration; nothing else -/
 theorem mem_certVkeys (h : Bytes) (c : Cert) :
-    h ∈ certVkeys c ↔ (c.kind.handled = true ∧ h = c.cred.hash ∧
-      (c.cred.isKey = true ∨ c.kind = .poolReg ∨ c.kind = .poolRetire)) := by
+    h ∈ certVkeys c ↔ ((h = c.cred.hash ∧ (c.cred.isKey = true ∨ c.kind = .poolReg ∨ c.kind = .poolRetire))
+      ∨ (c.kind = .poolReg ∧ h ∈ c.owners)) := by
   obtain ⟨k, ⟨ik, ch⟩, ow⟩ := c
-  cases k <;> cases ik <;> simp [certVkeys, CertKind.handled, CertKind.isStakeKind]
+  cases k <;> cases ik <;>
+    simp [certVkeys, credKey, CertKind.isStakeKind, CertKind.isDRepKind, CertKind.isCommitteeKind]
+
+/-- the code's collection contains everything the property text asks for -/
+theorem certVkeysFull_subset (h : Bytes) (c : Cert) (hm : h ∈ certVkeysFull c) : h ∈ certVkeys c := by
+  rw [mem_certVkeys]
+  unfold certVkeysFull credKey at hm
+  rw [List.mem_append] at hm
+  rcases hm with hm | hm
+  · by_cases hk : c.cred.isKey = true
+    · simp [hk] at hm; exact Or.inl ⟨hm, Or.inl hk⟩
+    · simp [hk] at hm
+  · by_cases hp : c.kind = .poolReg
+    · simp [hp] at hm; exact Or.inr ⟨hp, hm⟩
+    · simp [hp] at hm
+
+theorem mem_allNativeScripts (s : NScript) (st : State) :
+    s ∈ allNativeScripts st ↔ (s ∈ st.nativeScripts ∨ s ∈ st.inputScripts ∨ s ∈ st.mintScripts
+      ∨ s ∈ st.withdrawalScripts ∨ s ∈ st.certScripts) := by
+  simp [allNativeScripts, or_assoc]
 
 /-! ## placeholder witnesses -/
 
